@@ -18,8 +18,8 @@ Mode == IOEnv.MODE
 IsEv(name) == l <= NEv /\ Tr[l].e = name
 Step(v) == /\ l' = l + 1
            /\ viol' = Cap(viol \o v)
-           /\ Publish(viol', l')
-TInit == l = 1 /\ inj = << -9, -9 >> /\ viol = << >> /\ Publish(<< >>, 1)
+           /\ PubResult(viol', l')
+TInit == l = 1 /\ inj = << -9, -9 >> /\ viol = << >> /\ PubResult(<< >>, 1)
 
 TInj == /\ IsEv("StInj")
         /\ inj' = << Tr[l].aes, Tr[l].sha >>
